@@ -85,6 +85,7 @@ type frame struct {
 	defers  []deferred
 	fnName  string
 	named   bool
+	entry   map[string]Val // parameter values at entry (callsite clauses name them <param>0)
 }
 
 type loopFrame struct {
@@ -148,6 +149,7 @@ type Exec struct {
 
 	oldState   *State
 	paramVals  map[string]Val
+	paramObjs  map[*types.Var]Val // entry values of the parameters of the function under verification
 	entryStack []*State
 
 	unmodelled map[string]bool
@@ -483,6 +485,37 @@ func isInterface(t types.Type) bool {
 	return ok
 }
 
+// isRefType: values of these types are references into the allocation order.
+func isRefType(t types.Type) bool {
+	switch t.Underlying().(type) {
+	case *types.Pointer, *types.Map, *types.Interface, *types.Chan:
+		return true
+	}
+	return false
+}
+
+// refBounds states that every reference directly contained in the value v of type t (the value itself, or a field
+// of a struct value, recursively) was allocated before the frontier.
+func (ex *Exec) refBounds(t types.Type, v *T, frontier *T, depth int) *T {
+	if t == nil || depth > 3 {
+		return True
+	}
+	if isRefType(t) {
+		return Lt(v, frontier)
+	}
+	if st, ok := t.Underlying().(*types.Struct); ok && v.S == SInt {
+		var gs []*T
+		for i := 0; i < st.NumFields(); i++ {
+			f := st.Field(i)
+			if isRefType(f.Type()) || structOf(f.Type()) != nil {
+				gs = append(gs, ex.refBounds(f.Type(), ex.vfield(v, t, f), frontier, depth+1))
+			}
+		}
+		return And(gs...)
+	}
+	return True
+}
+
 // vfield returns the value-struct field accessor term V.T.f(h).
 func (ex *Exec) vfield(h *T, st types.Type, f *types.Var) *T {
 	name := "V." + structName(st) + "." + f.Name()
@@ -596,7 +629,7 @@ func (ex *Exec) heapWF(key string, arr *T, global bool) {
 	var f *T = True
 	if t, ok := ex.keyType[key]; ok {
 		f = ex.typeFact(t, cell)
-		if isPointer(t) || isInterface(t) {
+		if isRefType(t) {
 			// every stored reference was allocated before the current frontier
 			var frontier *T
 			if global {
